@@ -24,9 +24,9 @@ rc, out = sh(["git", "-C", "/repo", "worktree", "add", "--detach", WT, "HEAD"])
 try:
     patch = os.path.join(src, "patch.diff")
     demo = os.path.join(src, "demo_test.go")
-    rc, out = sh(["git", "apply", "--3way", patch], cwd=WT)
+    rc, out = sh(["git", "apply", patch], cwd=WT)
     if rc != 0:
-        rc, out = sh(["git", "apply", patch], cwd=WT)
+        rc, out = sh(["git", "apply", "--3way", patch], cwd=WT)
     res["applies"] = rc == 0
     if rc != 0:
         res["apply_error"] = out[-800:]
@@ -39,7 +39,7 @@ try:
         rc, out = sh("go test -vet=off -count=1 -timeout 10m -run 'TestSeed|Seed' . 2>&1 | tail -25", cwd=WT)
         res["demo_with_patch"] = "FAIL" if ("FAIL" in out or rc != 0) else "PASS"
         res["demo_with_patch_tail"] = out[-700:]
-        sh(["git", "checkout", "--", "."], cwd=WT)
+        sh(["git", "reset", "-q", "--hard", "HEAD"], cwd=WT)
         rc, out = sh("go test -vet=off -count=1 -timeout 10m -run 'TestSeed|Seed' . 2>&1 | tail -8", cwd=WT)
         res["demo_without_patch"] = "PASS" if (rc == 0 and "FAIL" not in out and "no tests to run" not in out) else "FAIL/none: " + out[-300:]
 finally:
@@ -59,7 +59,9 @@ if confirmed and checks:
         if iso:
             subprocess.run(["git", "-C", "/repo", "worktree", "remove", "--force", WT], capture_output=True)
             sh(["git", "-C", "/repo", "worktree", "add", "--detach", WT, "HEAD"])
-            sh(["git", "apply", os.path.join(src, "patch.diff")], cwd=WT)
+            rc1, _ = sh(["git", "apply", os.path.join(src, "patch.diff")], cwd=WT)
+            if rc1 != 0:
+                sh(["git", "apply", "--3way", os.path.join(src, "patch.diff")], cwd=WT)
             shutil.rmtree(VC, ignore_errors=True)
             sh(["rsync", "-a", "--exclude", ".git", "--exclude", "replays", "/verif/", VC + "/"])
             ENV["VERIF_REPO"] = WT
